@@ -507,7 +507,14 @@ _ADDED12 = {
     "C05": " (A9) see C04.",
     "C15": " (A9) see C04.",
 }
-for _src in (_ADDED, _ADDED3, _ADDED4, _ADDED5, _ADDED6, _ADDED7, _ADDED8, _ADDED9, _ADDED10, _ADDED11, _ADDED12):
+# Registrations and repairs after the thirteenth (short) round.
+_ADDED13 = {
+    "C09": " (SC1) registered here too.",
+    "C11": " (V5) registered here too for the topological sort: the reference-cycle check descends into the type arguments of references into other namespaces.",
+    "C04": " (VS1) also reads a key built from TypeToShortSyntax(t, false) or concatenated from such parts as unqualified.",
+    "C20": " (T12) is decided by types: a return in front of the generators stands under a test of an error-typed value or returns one.",
+}
+for _src in (_ADDED, _ADDED3, _ADDED4, _ADDED5, _ADDED6, _ADDED7, _ADDED8, _ADDED9, _ADDED10, _ADDED11, _ADDED12, _ADDED13):
     for _k, _v in _src.items():
         if _k in PROPS:
             PROPS[_k]["explanation"] += _v
